@@ -159,3 +159,11 @@ MUTANTS += [
  ('C14', 'load-persistent-bypasses-cache', SER, "        obj = self._cache.get(oid, None)\n        if obj is not None:\n            return obj\n\n        if isinstance(klass, tuple):", "        obj = None\n\n        if isinstance(klass, tuple):"),
  ('C14', 'weakref-target-not-stored', SER, "                        oid = self._jar.new_oid()\n                        target._p_jar = self._jar\n                        target._p_oid = oid\n                        self._stack.append(target)", "                        oid = self._jar.new_oid()\n                        target._p_jar = self._jar\n                        target._p_oid = oid"),
 ]
+MVCC = 'mvccadapter.py'
+MUTANTS += [
+ ('C15', 'gettid-at-equals-before', 'DB.py', "        before = at.laterThan(at).raw()", "        before = at.raw()"),
+ ('C15', 'historical-load-current', MVCC, "        r = self._storage.loadBefore(oid, self._before)\n        if r is None:\n            raise POSException.POSKeyError(oid)\n        return r[:2]", "        r = self._storage.loadBefore(oid, b'\\x7f' + b'\\xff' * 7)\n        if r is None:\n            raise POSException.POSKeyError(oid)\n        return r[:2]"),
+ ('C15', 'future-check-removed', 'DB.py', "        if (before is not None and\n            before > self.lastTransaction() and\n                before > getTID(self.lastTransaction(), None)):\n            raise ValueError(\n                'cannot open an historical connection in the future.')", "        pass"),
+ ('C15', 'historical-pool-ignores-bound', 'DB.py', "    def pop(self, key):\n        pool = self.pools.get(key)\n        if pool is not None:\n            return pool.pop()", "    def pop(self, key):\n        pool = self.pools.get(key) or (list(self.pools.values()) or [None])[0]\n        if pool is not None:\n            return pool.pop()"),
+ ('C15', 'datetime-drops-microseconds', 'DB.py', "    args = utc_struct[:5] + (utc_struct[5] + dt.microsecond / 1000000.0,)", "    args = utc_struct[:5] + (utc_struct[5] + 0.0,)"),
+]
